@@ -70,10 +70,23 @@ def cells(tier):
                     for v in vals:
                         for e in errs:
                             out.append(dict(bk=bk, mb=mb, chain=chain, store=store, ttl=ttl, val=v, err=e))
+    # the process east / west of UTC: results with a time-to-live on both bucket brokers
+    for bk in bks:
+        for tz in (9, -5):
+            for chain in ("ok", "fail"):
+                for ttl in TTLS:
+                    out.append(dict(bk=bk, mb="mem", chain=chain, store=True, ttl=ttl, val="nested", err="app", tz=tz))
     return out
 
 
 def execute(cell, deviations):
+    from ..vloop import local_zone
+
+    with local_zone(cell.get("tz", 0)):  # bucket timestamps are naive local stamps
+        return _execute(cell, deviations)
+
+
+def _execute(cell, deviations):
     chain = CHAINS[cell["chain"]]
     retries = 1 if cell["chain"] in ("fail-ok", "fail-fail") else 0
     recurring = cell["chain"] == "ok-fail"
